@@ -185,7 +185,9 @@ def _ax_stride_ge4_same_vs_valid(f, idx, n_ops, o):
     kgiven = o.get("kernel")
     sw = o.get("stride_w") or rng.choice([s for s in [4, 4, 5, 6, 8] if not kgiven or kgiven[1] >= s + 2] or [4])
     sh = rng.choice([1, 1, 2])
-    kh, kw = o.get("kernel") or (rng.choice([1, 1, 2, 3]), sw + rng.choice([2, 2, 3, 4, sw]))       # SAME: pad_left = (kw - sw) // 2 >= 1
+    # SAME: pad_left = (kw - sw) // 2 >= 1.  kw = 2 sw + 1: the folded kernels of the SAME and the VALID user have the same
+    # shape (3 columns) but the SAME one is shifted by the zero columns in front; otherwise the SAME one is a column wider
+    kh, kw = o.get("kernel") or (rng.choice([1, 1, 2, 3]), sw + rng.choice([2, 2, 3, 4, sw, sw + 1, sw + 1]))
     ic = o.get("ic") or f.pick([1, 2, 3, 4, 8], [1, 2, 3, 4])
     oc = o.get("oc") or f.pick([8, 16, 24, 32], [2, 4, 8])
     m = -(-kw // sw) + rng.choice([0, 1, 1, 2, 3])
